@@ -336,6 +336,8 @@ PTRef Logic::getDefaultValuePTRef(SRef const sref) const {
     if (sref == sort_BOOL) {
         return term_TRUE;
     } else {
+        // e.g. array sorts have no default value (models are not supported there)
+        if (not defaultValueForSort.has(sref)) { throw ApiException("No default value for sort " + sortToString(sref)); }
         return defaultValueForSort[sref];
     }
 }
